@@ -210,11 +210,6 @@ def exclLegacyFirstServer (k : RouterKind) (d : Doc) (r : Req) : Bool :=
   k = .legacy &&
   (d.servers.filter (fun s => (matchRawURL (s.url.length + 1) s.url (rawURL r) []).isSome)).length > 1
 
-/-- legacy router: the returned `Route` is the one stored by NewRouter, whose `Server` is nil even when the request was
-    matched through a declared server (gorillamux sets it) -/
-def exclLegacyNoRouteServer (k : RouterKind) (d : Doc) (r : Req) : Bool :=
-  k = .legacy && legacyFind d r ≠ legacyFindFixed d r
-
 def dropPathServers (d : Doc) : Doc := ⟨d.paths.map (fun p => ⟨p.template, p.methods, []⟩), d.servers⟩
 
 /-- legacy router: path-item level `servers` are ignored (the document's servers are used for every path) -/
@@ -227,10 +222,5 @@ def exclLegacyPathServers (k : RouterKind) (d : Doc) (r : Req) : Bool :=
     operations the node holds depends on the iteration order of a Go map -/
 def exclLegacyKeyCollision (k : RouterKind) (d : Doc) : Bool :=
   k = .legacy && keyCollision (docKeys d)
-
-/-- gorillamux: the servers of a path item stay in force for the path items after it (in matching order) that declare
-    none; stated on the request: the router as it is and the router after the repair answer differently -/
-def exclGorillaPathServersLeak (k : RouterKind) (d : Doc) (r : Req) : Bool :=
-  k = .gorilla && gorillaFind d r ≠ gorillaFindFixed d r
 
 end KinModel.Router
